@@ -229,8 +229,8 @@ def h_scale(flags, nm):
                 lemma(g, 'I3 lemma 1: transformed fluxes shift by log10 c; weights and errors unchanged')
             return r
 
-        def lr(*a):
-            r = inner['lr'](*a)
+        def lr(*a, **kw):
+            r = inner['lr'](*a, **kw)
             if st['run'] == 'A':
                 st['lrA'] = (r[0].copy(), r[1].copy())      # Models.fit clamps these arrays in place
             else:
@@ -239,8 +239,8 @@ def h_scale(flags, nm):
                 lemma(g, 'I3 lemma 2: regression A_V equal, scale shifted by -0.5*log10 c')
             return r
 
-        def os_(*a):
-            r = inner['os'](*a)
+        def os_(*a, **kw):
+            r = inner['os'](*a, **kw)
             if st['run'] == 'A':
                 st['osA'] = r.copy()
             elif np.shape(r) == np.shape(st.get('osA')):
@@ -248,8 +248,8 @@ def h_scale(flags, nm):
                       'I3 lemma 3: re-optimised scale shifted by -0.5*log10 c')
             return r
 
-        def chi(*a):
-            r = inner['chi'](*a)
+        def chi(*a, **kw):
+            r = inner['chi'](*a, **kw)
             if st['run'] == 'A':
                 st['chiA'] = r.copy()
             else:
@@ -406,6 +406,9 @@ def configs(tier, seed):
                         (((1, 4), (4, 1)), (0, 0, 1, 1))]):
         cfgs.append(Config('I4 history %s order=%s' % ('/'.join(''.join(map(str, f)) for f in seq), ''.join(map(str, order))),
                            h_history(seq, 1, order), 3000))
+    # two sources with the SAME flag vector and independent fluxes / errors (anything cached per flag pattern shows here)
+    cfgs.append(Config('I4 history same flags 14/14 order=01', h_history(((1, 4), (1, 4)), 1, (0, 1)), 3000))
+    cfgs.append(Config('I4 history same flags 441/441 nm=2 order=01', h_history(((4, 4, 1), (4, 4, 1)), 2, (0, 1)), 3000))
     cfgs.append(Config('I4 history nm=2 14/44 order=010', h_history(((1, 4), (4, 4)), 2, (0, 1, 0)), 3000))
     cfgs.append(Config('I4 history 3-D with resolved-model mask, sources 40/44 order=01', h_history(((4, 0), (4, 4)), 1, (0, 1), nd=2, extended=[(0, 0, 1)]), 3000))
     cfgs.append(Config('I4 history 3-D with resolved-model mask, sources 44/40 order=01', h_history(((4, 4), (4, 0)), 1, (0, 1), nd=2, extended=[(0, 1, 1)]), 3000))
